@@ -211,6 +211,34 @@ func (s *shape) FirstGood(r *model3d.Ray) (model3d.RayCollision, bool) {
 	return res, ok
 }
 
+// clean:AM the guard form: skip the candidate unless it is nearer.
+func (s *shape) FirstGuardGood(r *model3d.Ray) (model3d.RayCollision, bool) {
+	var res model3d.RayCollision
+	var ok bool
+	s.inner.RayCollisions(r, func(rc model3d.RayCollision) {
+		if ok && !(rc.Scale < res.Scale) {
+			return
+		}
+		res = rc
+		ok = true
+	})
+	return res, ok
+}
+
+// want:AM the guard skips the nearer candidates.
+func (s *shape) FirstGuardFlipped(r *model3d.Ray) (model3d.RayCollision, bool) {
+	var res model3d.RayCollision
+	var ok bool
+	s.inner.RayCollisions(r, func(rc model3d.RayCollision) {
+		if ok && rc.Scale < res.Scale {
+			return
+		}
+		res = rc
+		ok = true
+	})
+	return res, ok
+}
+
 // want:A3.MEAN early stop: the current sample is in the sum but not counted.
 func MeanEarlyStop(samples []model3d.Coord3D, max int) (model3d.Coord3D, int) {
 	var sum model3d.Coord3D
